@@ -408,6 +408,14 @@ impl MasterSession {
                                 // continue reading responses until timeout
                                 Ok(None) => continue,
                                 Ok(Some(response)) => {
+                                    // an accepted response that asks for confirmation is confirmed,
+                                    // exactly as in the READ path
+                                    if response.header.control.con {
+                                        if let Err(err) = self.confirm_solicited(io, dest, seq, writer).await {
+                                            task.on_task_error(self.associations.get_mut(dest.link).ok(), err.into());
+                                            return Err(err.into());
+                                        }
+                                    }
                                     match self.associations.get_mut(dest.link) {
                                         Err(x) => {
                                             task.on_task_error(None, x.into());
